@@ -998,6 +998,10 @@ namespace BitSerializer::Convert::Utf
 
 			// Read next chunk
 			mInputStream.read(mEndDataPtr, mEndBufferPtr - mEndDataPtr);
+			if (mInputStream.bad()) {
+				// Irrecoverable stream error (not the end of file): must not be taken for the end of data, IsEnd() would never become true
+				throw std::ios_base::failure("BitSerializer: failed to read from the input stream");
+			}
 			const auto lastReadSize = mInputStream.gcount();
 			mEndDataPtr += lastReadSize;
 			assert(mStartDataPtr >= mEncodedBuffer && mStartDataPtr <= mEndDataPtr);
